@@ -95,8 +95,11 @@ Fixpoint read_hills (fuel : nat) (nv : nat) (s : mstream) : mstream * bool :=
 Record bbias := mkBB {
   bb_kw : list byte;      (* state_keyword *)
   bb_type : list byte;    (* bias_type *)
-  bb_kind : nat;          (* 0: no data after the configuration; 1: list of hills *)
-  bb_nvar : nat
+  bb_kind : nat;          (* 1: a list of hills follows the fixed data (metadynamics); otherwise nothing *)
+  bb_nvar : nat;
+  bb_fields : list field  (* the fixed data after the configuration, all mandatory: read_state_data_key(is, k) and
+                             colvar_grid::read_raw (n objects of 8 bytes), e.g. ABF: "samples" n*8 "gradient" n*8
+                             and, with the CZAR estimator, "z_samples" n*8 "z_gradient" n*8; histogram: "grid" n*8 *)
 }.
 
 Inductive bres := BErr | BSkip | BOk (s : mstream) (err : bool).
@@ -116,10 +119,16 @@ Section BinReader.
     | _ => None
     end.
 
-  Definition read_data (b : bbias) (s : mstream) : mstream * bool :=
-    match bb_kind b with
-    | S O => read_hills (S (length (ms_buf s))) (bb_nvar b) s
-    | _ => (s, false)
+  (* read_state_data(is): None = a key or a grid value could not be read (the readers call cvm::error and the
+     stream fails: raise_error_rewind in the caller) *)
+  Definition read_data (b : bbias) (s : mstream) : option (mstream * bool) :=
+    match read_fields s (bb_fields b) with
+    | None => None
+    | Some (_, s1) =>
+      match bb_kind b with
+      | S O => Some (read_hills (S (length (ms_buf s1))) (bb_nvar b) s1)
+      | _ => Some (s1, false)
+      end
     end.
 
   (* colvarbias::read_state_template_<cvm::memory_stream> *)
@@ -134,7 +143,10 @@ Section BinReader.
           | Some false => BSkip                       (* rewound, stream good, no error *)
           | Some true =>
             if params_ok b conf then
-              let '(s3, e) := read_data b s2 in BOk s3 e
+              match read_data b s2 with
+              | Some (s3, e) => BOk s3 e
+              | None => BErr
+              end
             else BErr
           end
         | _ => BErr                                   (* raise_error_rewind *)
